@@ -86,7 +86,10 @@ CLAIMS = {
                 'transfer loop is executed symbolically and every finish instant is proved equal '
                 'to an independent processor-sharing fluid simulator on the same terms, for '
                 'every ordering of starts, finishes and the fault.',
-        'note': _NOTE + '; IEEE float rounding is outside the claim (the statement allows it)',
+        'note': _NOTE + '; IEEE float rounding is outside the solver-decided claim (the statement '
+                        'allows it); each validated path is additionally executed once with the '
+                        'same numbers as Python floats and compared with the fluid model up to a '
+                        'relative 1e-6 (concrete oracle on solver-chosen inputs)',
     },
     'C14': {
         'text': 'Period, body durations, start (up to +-10^12) and an enclosing deadline are '
@@ -142,7 +145,9 @@ CLAIMS = {
     'C03': {
         'text': 'One (thorough: two) of 35 uses of the public API with fresh symbolic arguments, '
                 'its world drivers, and an attacker (cancel, double cancel, until-interrupt, '
-                'close) at a symbolic instant (c,p) with both placements; the probe checks every '
+                'close by a failing scope, cancel+close, close by an until-scope) at a symbolic '
+                'instant (c,p) with both placements; family rare_ops adds first() with a backlog '
+                'and a two-stage failing activity and a delayed task cancelled before its start; the probe checks every '
                 'delivered signal against the activity it was created for and bounds the '
                 'activations per time step; run() must end normally or with the program own '
                 'exception on every path.',
@@ -156,7 +161,11 @@ CLAIMS = {
                 'perturbation in the concrete validation run, and a second exploration under '
                 'python -O with another PYTHONHASHSEED whose paths (identified by their free decisions) must carry identical '
                 'symbolic traces; float_absorb repeats the backend differential on IEEE doubles, '
-                'where a positive delay can be absorbed by the date.',
+                'where a positive delay can be absorbed by the date; phases re-uses one Tracked '
+                'value and one Pipe in successive phases (equal comparisons = a path; repeated '
+                'executions with a full garbage collection before every activation and with the '
+                'collector off); huge_dates orders integer dates beyond 2**53 on both backends '
+                '(float() of an exact symbolic number is decided cell by cell).',
         'note': _NOTE + '; the string-hash seed is varied only between the two explorations of the '
                         'post-check families (two seeds); IEEE doubles '
                         'only in family float_absorb',
